@@ -93,14 +93,18 @@ type localCall struct {
 
 // appCap is a local capability: a server.Server whose methods log their delivery.
 type appCap struct {
-	id        int
-	env       *rpcEnv
-	srv       *server.Server
-	client    *capnp.Client // the harness's own reference
-	shutdowns int32
+	id         int
+	env        *rpcEnv
+	srv        *server.Server
+	client     *capnp.Client // the harness's own reference
+	shutdowns  int32
+	onShutdown func() // a proxy: its Shutdown gives up a capability imported over the same Conn
 }
 
 func (a *appCap) Shutdown() {
+	if a.onShutdown != nil {
+		a.onShutdown()
+	}
 	n := atomic.AddInt32(&a.shutdowns, 1)
 	if n > 1 {
 		a.env.ev("!double-shutdown k" + strconv.Itoa(a.id))
@@ -584,6 +588,10 @@ func fillTarget(t rpccp.MessageTarget, spec string) {
 		pa.SetQuestionId(uint32(q))
 		ops, _ := pa.NewTransform(int32(len(parts) - 1))
 		for i, f := range parts[1:] {
+			if f == "n" { // a noop op: the transform is the same without it
+				ops.At(i).SetNoop()
+				continue
+			}
 			n, _ := strconv.Atoi(f)
 			ops.At(i).SetGetPointerField(uint16(n))
 		}
@@ -1012,6 +1020,7 @@ func (e *rpcEnv) localOp(op string) string {
 		async := op[1] != 'C'
 		stall := e.stallChan(op[1] == 'S')
 		var pass *capnp.Client
+		steal, placed := false, false
 		if len(f) > 2 && len(f[2]) > 1 {
 			n := atoi(f[2][1:])
 			switch f[2][0] {
@@ -1024,6 +1033,17 @@ func (e *rpcEnv) localOp(op string) string {
 			case 'h':
 				if n < len(e.handles) {
 					pass = e.handles[n]
+				}
+			case 'K':
+				// a new proxy capability that owns handle n and releases it in its Shutdown; the call's parameters get
+				// the only reference to the proxy
+				if n < len(e.handles) && e.handles[n] != nil && n != atoi(f[0]) {
+					owned := e.handles[n]
+					e.handles[n] = nil
+					a := e.newCap()
+					a.onShutdown = func() { owned.Release() }
+					pass = a.client
+					steal = true
 				}
 			}
 			if pass == nil || !pass.IsValid() {
@@ -1047,12 +1067,20 @@ func (e *rpcEnv) localOp(op string) string {
 					}
 					s.SetUint64(0, uint64(id)+1000)
 					if pass != nil {
-						in := capnp.NewInterface(s.Segment(), s.Message().AddCap(pass.AddRef()))
+						ref := pass
+						if !steal {
+							ref = pass.AddRef()
+						}
+						placed = true
+						in := capnp.NewInterface(s.Segment(), s.Message().AddCap(ref))
 						return s.SetPtr(0, in.ToPtr())
 					}
 					return nil
 				},
 			})
+			if steal && !placed {
+				pass.Release() // the call was refused before its parameters were built
+			}
 			lc.setAns(ans, rel)
 			e.watch(lc)
 		}
@@ -1560,7 +1588,21 @@ func inboundScript(r *lib.Rng, n int) string {
 	ops = append(ops, "pB0")
 	live = append(live, 0)
 	nextQ = 1
-	if r.Intn(4) == 0 {
+	if r.Intn(6) == 0 {
+		// directed: noop ops in the transform, on a returned and on an unreturned answer
+		ops = append(ops, "pC1:e0:"+strconv.Itoa(r.Pick(1, 2)), "pC2:a1.n.0:0", "pC3:a1."+r.PickS("0.n", "n.n.0", "n.0.n")+":0")
+		live = append(live, 1, 2, 3)
+		nextQ = 4
+		if ops[1] == "pC1:e0:1" {
+			heldCalls = 1
+			if r.Intn(2) == 0 {
+				ops = append(ops, "aR0:cap")
+				exports++
+			}
+		} else {
+			exports++
+		}
+	} else if r.Intn(4) == 0 {
 		// directed: calls pipelined on an unreturned answer through pointer fields beyond 255, then the big result
 		ops = append(ops, "pC1:a0:1", "pC2:a1."+strconv.Itoa(r.Pick(300, 300, 44, 0))+":0", "pC3:a1."+strconv.Itoa(r.Pick(300, 44))+":"+strconv.Itoa(r.Pick(0, 1)))
 		live = append(live, 1, 2, 3)
@@ -1601,7 +1643,15 @@ func inboundScript(r *lib.Rng, n int) string {
 			} else {
 				tgt = "a" + strconv.Itoa(pickLive())
 				if r.Intn(3) > 0 {
+					if r.Intn(5) == 0 {
+						tgt += ".n" // a noop op: the transform is the same without it
+					}
 					tgt += "." + strconv.Itoa(r.Pick(0, 0, 0, 1, 1, 300, 300, 44))
+					if r.Intn(8) == 0 {
+						tgt += ".n"
+					}
+				} else if r.Intn(8) == 0 {
+					tgt += ".n"
 				}
 			}
 			op := "pC" + strconv.Itoa(q) + ":" + tgt + ":" + strconv.Itoa(m)
@@ -1933,6 +1983,11 @@ func rpcOracles(trace string) []string {
 					var q int
 					fmt.Sscanf(ev, ">Call(%d,", &q)
 					relQ[q] = false
+					// a call addressed to promisedAnswer(t) goes out before the Finish of question t
+					var tq int
+					if _, err := fmt.Sscanf(ev[strings.Index(ev, ",")+1:], "a%d", &tq); err == nil && !inUseQ[tq] {
+						note(fmt.Sprintf("!call-targets-question-%d-after-its-finish", tq))
+					}
 					if inUseQ[q] {
 						note(fmt.Sprintf("!question-id-%d-reused-before-finish", q))
 					}
@@ -1960,6 +2015,10 @@ func rpcOracles(trace string) []string {
 				var id int
 				fmt.Sscanf(ev, ">Dis(sl%d,", &id)
 				embargoed[id] = true
+				var tq int
+				if _, err := fmt.Sscanf(ev[strings.Index(ev, ",")+1:], "a%d", &tq); err == nil && !inUseQ[tq] {
+					note(fmt.Sprintf("!disembargo-targets-question-%d-after-its-finish", tq))
+				}
 			case strings.HasPrefix(ev, ">Fin("):
 				var q int
 				fmt.Sscanf(ev, ">Fin(%d,", &q)
@@ -2015,11 +2074,34 @@ func execRPCCheck(boot bool, script string) string {
 	trace := execRPCScript(script, boot)
 	rpcRawOrder = false
 	bad := rpcOracles(trace)
+	// a noop op in a promisedAnswer transform means nothing: the same script without them has the same outcome (judged on
+	// scripts made of peer messages and application returns only: nothing in them depends on timing)
+	if strings.Contains(script, ".n") && noopComparable(script) {
+		plain := strings.ReplaceAll(script, ".n", "")
+		differs := func() bool {
+			a := execRPCScript(script, boot)
+			b := execRPCScript(plain, boot)
+			return strings.ReplaceAll(a, ".n", "") != b
+		}
+		if differs() && differs() {
+			bad = append(bad, "!noop-op-changes-the-outcome")
+		}
+	}
 	if len(bad) == 0 {
 		return "ok"
 	}
 	sort.Strings(bad)
 	return strings.Join(bad, " ")
+}
+
+func noopComparable(script string) bool {
+	for _, op := range strings.Split(script, ",") {
+		if !(strings.HasPrefix(op, "pB") || strings.HasPrefix(op, "pC") || strings.HasPrefix(op, "pF") || strings.HasPrefix(op, "pL") ||
+			strings.HasPrefix(op, "pD") || strings.HasPrefix(op, "aR")) {
+			return false
+		}
+	}
+	return true
 }
 
 // mixedScript: both directions, capabilities, pipelining, releases; hostile / fault ops according to the profile
@@ -2043,7 +2125,15 @@ func mixedScript(r *lib.Rng, n int, hostile, faults bool) string {
 			if r.Intn(2) == 0 && nextQ > 0 {
 				tgt = "a" + strconv.Itoa(r.Intn(nextQ))
 				if r.Intn(3) > 0 {
+					if r.Intn(6) == 0 {
+						tgt += ".n" // a noop op before …
+					}
 					tgt += "." + strconv.Itoa(r.Pick(0, 0, 0, 1, 300, 44))
+					if r.Intn(8) == 0 {
+						tgt += ".n" // … or after the field
+					}
+				} else if r.Intn(8) == 0 {
+					tgt += ".n"
 				}
 			}
 			m := r.Pick(0, 0, 1, 1, 2, 3, 4, 5, 6, 7, 8)
@@ -2149,14 +2239,25 @@ var rpcDirected = []string{
 	"1lB,pRQ0:boot:s1,lC0:5:k0,lP0:0:0,pRQ0:ok:r0,lH0:0,lA1:0,pF777:0",                // the peer breaks the protocol instead of looping back
 	"1lB,pRQ0:boot:s1,lC0:5:k0,lP0:0:0,pRQ0:ok:r0,lH0:0,lA1:0,fN1,lZ,lC1:0",           // Close (abort message cannot be created) while embargoed; a call afterwards
 	"1lB,pRQ0:boot:s1,lC0:5:k0,lP0:0:0,pRQ0:ok:r0,lH0:0,lA1:0,fS1,lZ,lC1:0",           // … the abort message cannot be sent
-	"1lB,pRQ0:boot:s1,pR0:ok,lB",                                                 // a Return for a question slot that is in range but empty
-	"1lB,lB,pRQ1:boot:s1,pR1:ok:s2,lC0:0",                                        // … while other questions are outstanding
-	"1lB,pRQ0:boot:s1,lC0:5:k0,lP0:0:0,pRQ0:ok:r0,lY0,pDr0:e0,lC0:0",             // the embargoed result is released before the Disembargo comes back
-	"1lB,pRQ0:boot:s1,lC0:5:k0,lP0:0:0,pRQ0:ok:r0,lH0:0,lY0,lR1,pDr0:e0,lC0:0",   // … all of its references are
-	"1lB,pRQ0:boot:s1,lC0:5:k0,lP0:0:0,pRQ0:ok:r0,lH0:0,lY0,pDr0:e0,lC1:0,lR1",   // … or one survives and is used afterwards
-	"1pB0,lB,lC0:0,pRQ0:boot:rX0,lR0,lZ",                                         // an embargoed bootstrap capability is released, then Close lifts the embargo
-	"1pB0,pF0:0,fW,pC1:eX0:2,pF1:1,fG,pB2",                                       // the Finish (releasing the result caps) is handled while the Return is still being written
-	"1pB0,pF0:0,fW,pC1:eX0:2,pF1:0,fG,pLX1:1,pB2",                                // … without releaseResultCaps, then an explicit Release
+	"1lB,pRQ0:boot:s1,pR0:ok,lB",                                                // a Return for a question slot that is in range but empty
+	"1lB,lB,pRQ1:boot:s1,pR1:ok:s2,lC0:0",                                       // … while other questions are outstanding
+	"1lB,pRQ0:boot:s1,lC0:5:k0,lP0:0:0,pRQ0:ok:r0,lY0,pDr0:e0,lC0:0",            // the embargoed result is released before the Disembargo comes back
+	"1lB,pRQ0:boot:s1,lC0:5:k0,lP0:0:0,pRQ0:ok:r0,lH0:0,lY0,lR1,pDr0:e0,lC0:0",  // … all of its references are
+	"1lB,pRQ0:boot:s1,lC0:5:k0,lP0:0:0,pRQ0:ok:r0,lH0:0,lY0,pDr0:e0,lC1:0,lR1",  // … or one survives and is used afterwards
+	"1pB0,lB,lC0:0,pRQ0:boot:rX0,lR0,lZ",                                        // an embargoed bootstrap capability is released, then Close lifts the embargo
+	"1pB0,pF0:0,fW,pC1:eX0:2,pF1:1,fG,pB2",                                      // the Finish (releasing the result caps) is handled while the Return is still being written
+	"1pB0,pF0:0,fW,pC1:eX0:2,pF1:0,fG,pLX1:1,pB2",                               // … without releaseResultCaps, then an explicit Release
+	"1lB,pRQ0:boot:s1,lB,pRQ0:boot:s2,lC1:0:K0,pRQ0:ok,pLX0:1,pB5",              // the last reference to an exported proxy goes with a Release; its Shutdown releases an import of the same Conn
+	"1lB,pRQ0:boot:s1,lB,pRQ0:boot:s2,lC1:0:K0,pRQ0:ok,pLX0:1,lC1:0,pRQ0:ok,lZ", // … the Conn is still usable afterwards
+	"1fN1,pB0,pF0:0,pB1",                                                         // the Return of a Bootstrap cannot be created (placeholder answer), then its Finish
+	"1pB0,fN1,pC1:e0:0,pF1:1,pB2",                                                // … of a Call
+	"1pB0,fN1,pC1:e0:2,pF1:0,pC2:a1.0:0,pB3",                                     // … a call pipelined on the placeholder
+	"1lB,pRQ0:boot:s1,lC0:0,lQ0:0:0,pRQ0:ok:s2,fG,pRQ0:ok",                       // the Return arrives while a call made through Answer.PipelineSend is being built (no pipelined client exists): the call leaves before the Finish
+	"1lB,pRQ0:boot:s1,lC0:0,lQ0:0:0,lQ0:1:0,pRQ0:exc,fG",                         // … two of them, the base call fails
+	"1pB0,pC1:e0:2,pDs0:a1.0",                                                    // a senderLoopback Disembargo aimed at a result capability that is a local export: refused, and nothing leaks
+	"1pB0,pC1:e0:7,pDs0:a1.1,lZ",                                                 // … the second pointer to the same capability
+	"1pB0,pC1:e0:1,pC2:a1.n.0:0,pC3:a1.0.n:0,aR0:cap",                            // noop ops in a promisedAnswer transform (held answer)
+	"1pB0,pC1:e0:2,pC2:a1.n.0:0,pC3:a1.n.n.0.n:0,pDs0:a1.n.0",                    // … on a returned answer
 	"1pB0,pF0:0,pC1:e0:8,fW,pF1:1,pL1:1,fG,pB2",                                  // D33: a Release for the export the Return is about to advertise arrives while the Return is being written (Finish with releaseResultCaps came first): the Conn aborts from the handler's goroutine
 	"1pB0,pF0:0,pC1:e0:8,fW,pF1:1,pL1:1,fG,lZ",                                   // … and Close afterwards returns
 	"0lB,pRQ0:boot:s1,lC0:0,fW,lr0,pRQ0:ok:s1,fG,lH0:0,lC1:0,pRQ0:ok,lR1,lY0",    // a descriptor for an import arrives while its Release is still being written
